@@ -14,9 +14,12 @@
   * `held_free_succeeds_seq` — sequentially, a free of a block whose frames are all allocated
     (a held block) succeeds (from C02).
 
-  PARTIAL: for *every interleaving* the panic-freedom of the remaining sites and the success of
-  frees of held blocks need the concurrent ownership invariant (DESIGN §7/C01, C03); not yet a
-  theorem. Explored by the trace co-simulation (preemption-bounded DFS, random schedules, freeze
+  * `conc_bitfield_no_panic` / `conc_free_of_held_succeeds` — **every interleaving of any number
+    of threads** at the bitfield level (`Bitfield::toggle`, all orders): no access panics, the
+    roll-back `Failed undo toggle` cannot fail, frees of held blocks succeed.
+
+  PARTIAL: for the whole allocator (`set_first_zeros`, counters/markers — where K1 lives —, tree
+  counters, reservations) panic-freedom under every interleaving is not a theorem. Explored by the trace co-simulation (preemption-bounded DFS, random schedules, freeze
   experiments), with panic capture and the "free of a held block succeeded" oracle; the event
   trace of every explored schedule is replayed on the Lean interleaving semantics.
 -/
@@ -24,6 +27,7 @@ import LLFreeV.Model.Conc
 import LLFreeV.Props.C09
 import LLFreeV.Props.C02
 import LLFreeV.Proofs.UpperInit
+import LLFreeV.Proofs.OwnThreads
 namespace LLFree.C03
 open LLFree
 
@@ -70,5 +74,26 @@ theorem held_free_succeeds_upper (c : Cfg) (ok : CfgOk c) (H : Nat → Prop) (m 
 theorem seq_history_never_panics (c : Cfg) (ok : CfgOk c) (calls : List Call) (hvalid : ∀ x ∈ calls, x.valid c)
     (H : Nat → Prop) (m : Mem) (inv : UpperInv0 c H m) :
     Runs m (runCalls c calls) (fun _ m' => ∃ H', UpperInv0 c H' m') := calls_safe ok calls hvalid H m inv
+
+
+/-- **Every interleaving (bitfield level)**: no atomic access of any thread panics — in
+    particular the roll-back of a multi-row allocation (`Failed undo toggle`) cannot fail — and
+    every free of a held block succeeds (a failing one would be the panic of `runCmds`). -/
+theorem conc_bitfield_no_panic (g : Geom) (okg : GeomOk g) (cmds : Nat → List BCmd) (m : Mem) (sched : List Nat) (k : Nat) :
+    ∀ s, ((concRun sched (m, fun k => Th.at (runCmds g (cmds k) []))).2 k).step
+      (concRun sched (m, fun k => Th.at (runCmds g (cmds k) []))).1 = .dead s → s = oobMsg := by
+  intro s hs
+  obtain ⟨_, _, h⟩ := bitfield_threads_safe okg cmds m sched
+  have := h k
+  rw [hs] at this
+  exact this
+
+/-- a held block is freed successfully by `toggle` whatever the other threads do (rely: they
+    never touch bits they do not own) -/
+theorem conc_free_of_held_succeeds (g : Geom) (okg : GeomOk g) (own : Owned) (h i order : Nat) (hoh : order ≤ g.hugeOrder)
+    (hal : (i % g.hugeFrames) % 2 ^ order = 0)
+    (hown : ∀ f, inBlockF (h * g.hugeFrames + i % g.hugeFrames) (2 ^ order) f = true → own f = true) :
+    SafeR (FreePost own (h * g.hugeFrames + i % g.hugeFrames) (2 ^ order)) own (Bitfield.toggle g h i order true) :=
+  toggle_free_safe okg own h i order hoh hal hown
 
 end LLFree.C03
